@@ -1444,9 +1444,11 @@ class Cache:
         if prefix is None:
             min_key = 0
             max_key = 999999999999999
+            length = ''
         else:
             min_key = prefix + '-000000000000000'
             max_key = prefix + '-999999999999999'
+            length = ' AND length(key) = %d' % len(min_key)
 
         now = time.time()
         raw = True
@@ -1456,9 +1458,9 @@ class Cache:
         order = {'back': 'DESC', 'front': 'ASC'}
         select = (
             'SELECT key FROM Cache'
-            ' WHERE ? < key AND key < ? AND raw = ?'
+            ' WHERE ? < key AND key < ? AND raw = ?%s'
             ' ORDER BY key %s LIMIT 1'
-        ) % order[side]
+        ) % (length, order[side])
 
         with self._transact(retry, filename) as (sql, cleanup):
             rows = sql(select, (min_key, max_key, raw)).fetchall()
@@ -1554,16 +1556,18 @@ class Cache:
         if prefix is None:
             min_key = 0
             max_key = 999999999999999
+            length = ''
         else:
             min_key = prefix + '-000000000000000'
             max_key = prefix + '-999999999999999'
+            length = ' AND length(key) = %d' % len(min_key)
 
         order = {'front': 'ASC', 'back': 'DESC'}
         select = (
             'SELECT rowid, key, expire_time, tag, mode, filename, value'
-            ' FROM Cache WHERE ? < key AND key < ? AND raw = 1'
+            ' FROM Cache WHERE ? < key AND key < ? AND raw = 1%s'
             ' ORDER BY key %s LIMIT 1'
-        ) % order[side]
+        ) % (length, order[side])
 
         if expire_time and tag:
             default = default, None, None
@@ -1669,16 +1673,18 @@ class Cache:
         if prefix is None:
             min_key = 0
             max_key = 999999999999999
+            length = ''
         else:
             min_key = prefix + '-000000000000000'
             max_key = prefix + '-999999999999999'
+            length = ' AND length(key) = %d' % len(min_key)
 
         order = {'front': 'ASC', 'back': 'DESC'}
         select = (
             'SELECT rowid, key, expire_time, tag, mode, filename, value'
-            ' FROM Cache WHERE ? < key AND key < ? AND raw = 1'
+            ' FROM Cache WHERE ? < key AND key < ? AND raw = 1%s'
             ' ORDER BY key %s LIMIT 1'
-        ) % order[side]
+        ) % (length, order[side])
 
         if expire_time and tag:
             default = default, None, None
